@@ -11,7 +11,8 @@
 //        overflow destruction), capacity 1-4
 //   mode seq : one thread, long random history over a random configuration of the above (also built
 //        WITHOUT VRT under ASan+UBSan: -DC17_NOVRT, events only)
-// Output per run:  RUN <seed> mode=<m> cap=<c> batch=<b> count=<off|pre|post> pool=<cap> threads=<n>
+// Output per run:  RUN <seed> mode=<m> cap=<c> batch=<b> count=<off|pre|post> pool=<cap> threads=<n> base=<round>
+//                  (base != 0: the queue was preset to the start of that round, just below the 16-bit version wrap)
 //                  <trace lines> END
 // Trace = every atomic operation on the queue's ticket counters (`pushi`, `popi`) and slot futex words
 // (`slot+off`), every fence, and harness events:
@@ -183,6 +184,24 @@ struct Held {
   void* p;
   int id;
 };
+
+// Start a run just below the wrap of the 16-bit slot version: put the (empty) queue at the start of round
+// `round` — both ticket counters at round * capacity, every slot word at the push version of that round.
+// Done before the controlled section; the model starts from State.initAt c round (header `base=`).
+template <typename Q>
+static void preset_round(Q& fq, size_t round) {
+  if (round == 0) return;
+  size_t cap = fq.capacity();
+  fq._next_push_index.store(round * cap, std::memory_order_relaxed);
+  fq._next_pop_index.store(round * cap, std::memory_order_relaxed);
+  for (size_t k = 0; k < cap; ++k) fq._slots.futex(k)._futex.value().store((uint16_t)(round << 1), std::memory_order_relaxed);
+}
+static size_t pick_round(uint64_t seed, int pct) {
+  Rng r(seed ^ 0x5eedba5eull);
+  if ((int)r.below(100) >= pct) return 0;
+  const size_t rounds[] = {32766, 32767, 65534, 65535, 32767, 65535};
+  return rounds[r.below(6)];
+}
 
 struct PageRig {
   Recorder rec;
@@ -376,9 +395,11 @@ static void run_pages(uint64_t seed, std::string mode, bool seq) {
   vrt_unname_all();
   PageRig rig;
   rig.build(m, want_cap, want_batch);
+  size_t base = pick_round(seed, fullrace ? 60 : 25);
+  preset_round(rig.q->_free_pages, base);
   vrt_begin(seed);
-  printf("RUN %lu mode=%s cap=%zu batch=%zu count=%s pool=0 threads=%d%s\n", (unsigned long)seed, m.c_str(), rig.cap, rig.batchn, rig.count,
-         nthreads + 1, L2TAG);
+  printf("RUN %lu mode=%s cap=%zu batch=%zu count=%s pool=0 threads=%d base=%zu%s\n", (unsigned long)seed, m.c_str(), rig.cap, rig.batchn,
+         rig.count, nthreads + 1, base, L2TAG);
   std::vector<std::vector<Held>> held((size_t)nthreads + 1);
   if (fullrace) {
     // obtain cap + k pages, give cap of them back (cache exactly full), hand the other k to the threads
@@ -625,9 +646,11 @@ static void run_pool(uint64_t seed, bool strict, bool seq) {
   vrt_unname_all();
   PoolRig rig;
   rig.build(strict, cap);
+  size_t base = pick_round(seed, 25);
+  preset_round(rig.pool->_free_objects, base);
   vrt_begin(seed);
-  printf("RUN %lu mode=%s cap=%zu batch=0 count=off pool=%zu threads=%d%s\n", (unsigned long)seed, strict ? "strict" : "auto", rig.qcap, cap,
-         nthreads + 1, L2TAG);
+  printf("RUN %lu mode=%s cap=%zu batch=0 count=off pool=%zu threads=%d base=%zu%s\n", (unsigned long)seed, strict ? "strict" : "auto", rig.qcap, cap,
+         nthreads + 1, base, L2TAG);
   std::vector<std::vector<std::unique_ptr<Handle>>> held((size_t)nthreads + 1);
   if (strict) {
     size_t inj = 1 + rng.below(cap);
